@@ -72,8 +72,10 @@ func NewExchangeJSightSchema[T bytes.ByteKeeper](
 	return es, nil
 }
 
-// exampleMu serialises the example generation of all JSight schemas.
-var exampleMu sync.Mutex
+// SchemaCoreMu serialises the operations of jsight-schema-core that work on buffers
+// taken from package-level pools (the example generation, the OpenAPI converter):
+// these pools are not safe for concurrent use.
+var SchemaCoreMu sync.Mutex
 
 func (e *ExchangeJSightSchema) Notation() notation.SchemaNotation {
 	return notation.SchemaNotationJSight
@@ -129,8 +131,8 @@ func (e *ExchangeJSightSchema) Example() ([]byte, error) {
 		// The generator returns a slice of a buffer which it has already given back to
 		// a pool shared by all schemas: the bytes have to be copied before anybody else
 		// (another goroutine included) generates an example.
-		exampleMu.Lock()
-		defer exampleMu.Unlock()
+		SchemaCoreMu.Lock()
+		defer SchemaCoreMu.Unlock()
 
 		var b []byte
 		b, e.exampleErr = e.JSchema.Example()
